@@ -256,6 +256,46 @@ pub fn run(opts: &Opts) -> Report {
             Err(m) => rep.fail("panic", "test/unknown-key/panic", ctx, "(true, false, false)", &m),
         }
     }
+    // ---------- one dataset arriving twice (a second store document merged into the first) ----------
+    {
+        let doc = |data: &str| format!("{{\"@type\": \"AnnotationStore\", \"resources\": [], \"annotationsets\": [{{\"@type\": \"AnnotationDataSet\", \"@id\": \"set\", \"keys\": [{{\"@type\": \"DataKey\", \"@id\": \"pos\"}}, {{\"@type\": \"DataKey\", \"@id\": \"lemma\"}}], \"data\": [{}]}}], \"annotations\": []}}", data);
+        let item = |id: Option<&str>, key: &str, val: &str| format!("{{\"@type\": \"AnnotationData\"{}, \"key\": \"{}\", \"value\": {{\"@type\": \"String\", \"value\": \"{}\"}}}}", id.map(|i| format!(", \"@id\": \"{}\"", i)).unwrap_or_default(), key, val);
+        // what each key says it holds against a scan of the items, and the id-less (key, value) pairs that occur twice
+        let audit = |st: &AnnotationStore| -> Vec<String> {
+            let mut bad = vec![];
+            if let Some(ds) = st.dataset("set") {
+                for k in ds.keys() {
+                    let mut listed: Vec<usize> = k.data().map(|d| d.handle().as_usize()).collect(); listed.sort();
+                    let mut scanned: Vec<usize> = ds.data().filter(|d| d.key().handle() == k.handle()).map(|d| d.handle().as_usize()).collect(); scanned.sort();
+                    if listed != scanned { bad.push(format!("key-index: key {:?} lists the items {:?}, the items carrying it are {:?}", k.id(), listed, scanned)); }
+                }
+                let idless: Vec<String> = ds.data().filter(|d| d.id().is_none()).map(|d| format!("{}={:?}", d.key().id().unwrap_or("?"), d.value())).collect();
+                for (i, x) in idless.iter().enumerate() { if idless[..i].contains(x) { bad.push(format!("twice: the id-less item {} occurs twice", x)); } }
+            } else { bad.push("no dataset".into()); }
+            bad
+        };
+        let cases: Vec<(&str, String, Option<String>)> = vec![
+            ("same-document-merged-twice", doc(&[item(None, "pos", "noun"), item(Some("D1"), "pos", "verb")].join(", ")), Some(doc(&[item(None, "pos", "noun"), item(Some("D1"), "pos", "verb")].join(", ")))),
+            ("second-document-moves-an-item-to-another-key", doc(&item(Some("D1"), "pos", "noun")), Some(doc(&item(Some("D1"), "lemma", "noun")))),
+            ("second-document-repeats-an-idless-item", doc(&item(None, "pos", "noun")), Some(doc(&[item(None, "lemma", "x"), item(None, "pos", "noun")].join(", ")))),
+            ("one-document-lists-an-idless-item-twice", doc(&[item(None, "pos", "noun"), item(None, "pos", "noun")].join(", ")), None),
+        ];
+        for (name, first, second) in cases {
+            rep.count(&format!("dedup-path:merge:{}", name));
+            rep.case(Some(&format!("dedup-path merge {}", name)));
+            let ctx = vec![format!("first document: {}", first), format!("merged into it: {}", second.clone().unwrap_or("(nothing)".into()))];
+            let r = guarded(std::panic::AssertUnwindSafe(|| -> Result<Vec<String>, StamError> {
+                let mut st = AnnotationStore::from_str(&first, Config::default())?;
+                if let Some(second) = &second { st.merge_json_str(second)?; }
+                Ok(audit(&st))
+            }));
+            match r {
+                Ok(Ok(bad)) => { if let Some(b) = bad.first() { rep.fail("oracle", &format!("vocabulary/merge/{}/{}", name, b.split(':').next().unwrap_or("?")), ctx, "every key lists exactly the items carrying it; no id-less (key, value) twice", b); } }
+                Ok(Err(e)) => rep.fail("oracle", &format!("vocabulary/merge/{}/refused", name), ctx, "merged", &format!("{}", e)),
+                Err(m) => rep.fail("panic", &format!("vocabulary/merge/{}/panic", name), ctx, "merged", &m),
+            }
+        }
+    }
     // ---------- find_data = scan ----------
     let nstores = if opts.thorough() { 400 } else { 60 };
     for si in 0..nstores {
